@@ -148,6 +148,10 @@ class Ctx(object):
     def fail(self, case, signature, observed=None):
         """Oracle failed on `case`. Either an open known finding explains it (counted, search
         goes on) or a Violation is raised for Hypothesis to shrink."""
+        if 'MinifyTimeout' in repr(signature):
+            # the system under test did not return within the time bound: inconclusive, never a violation
+            self.note('sut_timeout_inconclusive')
+            return
         entry = self.findings.match(self.check_id, case, signature, observed)
         if entry is not None:
             self.known[entry] += 1
@@ -245,7 +249,12 @@ def hyp_run(ctx, name, strategy, prop, n, shrink=True):
             prop(case)
         except Violation:
             raise
-        except Exception:
+        except BaseException as e:
+            if type(e).__name__ == 'MinifyTimeout':
+                ctx.note('sut_timeout_inconclusive')
+                return
+            if not isinstance(e, Exception):
+                raise
             # a bug in the harness (or a dead worker): do not let Hypothesis spend minutes shrinking it
             harness_errors.append(traceback.format_exc()[-3000:] + '\ncase: %.2000r' % (case,))
 
